@@ -346,6 +346,21 @@ func init() {
 									g.Open()
 								}
 								w.Setup("drain", func() {})
+								// a worker stuck in a callback can take its mailbox size and no more: it must have been skipped after that
+								for k := range gates {
+									wn := fmt.Sprintf("W%d", k)
+									n := 0
+									for _, sx := range sent {
+										for _, by := range pb.by[sx.payload] {
+											if by == wn {
+												n++
+											}
+										}
+									}
+									if int64(n) > mbox {
+										w.ex.Fail("full-worker-not-skipped", "pool of %d+%d workers, mailbox size %d: worker %s, stuck in a callback for the whole run, was given %d messages", size, add, mbox, wn, n)
+									}
+								}
 								if insp["messages_unhandled"] != "0" {
 									w.ex.Fail("dropped-with-free-worker", "pool of %d+%d workers, stuck mask %b, mailbox %d: the pool dropped %s message(s) although a worker is idle with an empty mailbox", size, add, stuck, mbox, insp["messages_unhandled"])
 								}
